@@ -3,7 +3,7 @@
  "name": "jw_add_blocks_to_trans",
  "props": ["C14", "C03"],
  "level": "U/iter",
- "tier": "wip",
+ "tier": "thorough",
  "tier_after_hooks": "thorough",
  "harness": "h_add_blocks",
  "loop_contracts": true,
@@ -14,15 +14,16 @@
  "unwind_reason": "the per-block loop of journal_add_blocks_to_trans is cut by its in-place loop contract (named anchor VERIF_INV_JOURNAL_ADD_BLOCKS_TO_TRANS, hooks-pending/jw.diff); the bound serves the DFCC library loops only (unwinding assertions on)",
  "functions": ["debugfs/do_journal.c:journal_add_blocks_to_trans"],
  "assumes": [
-   "NEEDS the hook in hooks-pending/jw.diff (named loop anchors in debugfs/do_journal.c)",
+   "NEEDS the hook in hooks-pending/jw.diff (debugfs/do_journal.c: named loop anchor VERIF_INV_JOURNAL_ADD_BLOCKS_TO_TRANS and ONE ghost statement VERIF_MON_JOURNAL_ADD_BLOCKS_TO_TRANS_BEGIN at the top of the loop body that re-bases the tag cursor jdbt on the descriptor buffer - asserted to be the identity)",
    "no contract enforced on journal_add_blocks_to_trans (big function): the statement is carried by ghost monitors in the callee stubs and by harness CHECKs",
-   "callees are stubs (jw_stubs.h): getblk (may fail), ll_rw_block / brelse (device write = monitored event, may fail), mark_buffer_dirty, jbd2_journal_bmap (physical = logical + constant, may fail), fread (one block or nothing), ext2fs_blocks_count (constant), jbd2_block_tag_csum_set and jbd2_descr_block_csum_set (store an ARBITRARY value in the format's checksum field when checksums are on and record what the buffer held at that moment; what the real ones compute: units jw_block_tag_csum_set, jw_descr_block_csum_set)",
+   "callees are stubs (jw_stubs.h): getblk (succeeds; allocates header + j_blocksize bytes as the real one, plus 32 never-accessed slack bytes, content arbitrary), ll_rw_block (device write = monitored event, may fail; a write request on a clean buffer is reported), brelse (a buffer still dirty at its release is reported unless a write failed before), mark_buffer_dirty, jbd2_journal_bmap (physical = logical + constant, may fail), fread (one block or nothing; the record it delivers is the arbitrary content the buffer has at that moment), ext2fs_blocks_count (constant), jbd2_block_tag_csum_set and jbd2_descr_block_csum_set (store an ARBITRARY value in the format's checksum field when checksums are on and record what the buffer held at that moment; what the real ones compute: units jw_block_tag_csum_set, jw_descr_block_csum_set), libc memcpy (16 UUID bytes: ranges asserted, copy performed at ONE ghost byte index)",
    "U/iter: the per-block statement is proved for the first iteration from the real initial state and for one iteration starting in an arbitrary state that satisfies the proved loop invariant (tag cursor = the format's walk, blocks contiguous behind the descriptor slot, header intact, completed tags frozen, nothing pending); the epilogue (last descriptor block) from an arbitrary such state",
-   "pointwise: ONE arbitrary byte offset g_k of the data block and ONE arbitrary offset g_kd of the descriptor block stand for all bytes",
-   "j_blocksize enumerated over {1024, 4096}; j_format_version 1 or 2; journal superblock arbitrary (every tag format: 32/64 bit, no checksum / v2 / v3); block list of up to 2^20 arbitrary entries",
-   "a journal without the 64BIT feature belongs to a filesystem of fewer than 2^32 blocks (mkjournal sets JBD2_FEATURE_INCOMPAT_64BIT from the filesystem's 64bit feature)",
+   "pointwise: ONE arbitrary byte offset g_k of the data block, ONE arbitrary offset g_kd of the descriptor block and ONE arbitrary UUID byte g_ku stand for all bytes",
+   "j_blocksize = 1024 ONLY (cap: the verifier's cost is linear in the buffer size; 4096 exceeds 10 GB - the code uses j_blocksize only as an opaque bound); j_format_version 1 or 2; journal superblock arbitrary (every tag format: 32/64 bit, no checksum / v2 / v3); block list of up to 2^20 arbitrary entries",
+   "a journal without the 64BIT feature belongs to a filesystem of fewer than 2^32 blocks (do_journal_open: update_64bit_flag sets the feature whenever the filesystem has 64bit and the journal is clean; the kernel sets it at mount)",
+   "the ENOMEM returns (getblk failing) are not exercised",
    "little-endian host; errcode_t values fit in 31 bits",
-   "NOT demanded here: the 16 UUID bytes behind the first tag (unit jw_add_blocks_first_tag_uuid, finding C03_jw_first_tag_uuid), the high half of the be32 t_flags of a v3 tag (same finding), and a non-zero return when the data file ends early with errno == 0 (the function then returns 0 with the open descriptor block unwritten - observation in the report)"
+   "NOT demanded here: the 16 UUID bytes behind the first tag (unit jw_add_blocks_first_tag_uuid, finding C03_jw_first_tag_uuid), the high half of the be32 t_flags of a v3 tag (same finding), strict-C pointer formation behind the buffer (unit jw_add_blocks_to_trans_strict), and a non-zero return when the data file ends early with errno == 0 (the function then returns 0 with the open descriptor block unwritten - observation in the report)"
   ],
  "native": false
 }
@@ -32,7 +33,7 @@
  "name": "jw_add_blocks_first_tag_uuid",
  "props": ["C03"],
  "level": "U/iter",
- "tier": "wip",
+ "tier": "quick",
  "harness": "h_add_blocks",
  "loop_contracts": true,
  "includes": ["debugfs", "lib/ss", "e2fsck"],
@@ -52,7 +53,7 @@
  "name": "jw_add_blocks_to_trans_strict",
  "props": ["C03"],
  "level": "U/iter",
- "tier": "wip",
+ "tier": "obs",
  "harness": "h_add_blocks",
  "loop_contracts": true,
  "includes": ["debugfs", "lib/ss", "e2fsck"],
